@@ -447,6 +447,16 @@ pub fn gen_shard(data_seed: u64, mode: u8, index: usize, len: usize) -> Vec<u8> 
             v[at] = 1 + p.below(255) as u8;
         }
         2 => v.fill(0xFF),
+        3 => {
+            // mixed: some shards all zero, some all ones, the rest random (special symbol values 0x0000 / 0xFFFF
+            // and whole-shard special cases next to ordinary data)
+            let mut p = Prng::new(simcore::prng::mix(&[data_seed, index as u64, 3]));
+            match p.below(6) {
+                0 | 1 => {}
+                2 => v.fill(0xFF),
+                _ => p.fill(&mut v),
+            }
+        }
         _ => Prng::new(simcore::prng::mix(&[data_seed, index as u64])).fill(&mut v),
     }
     v
